@@ -194,8 +194,13 @@ func genAggRule(t *rapid.T, schema []PredInfo, head string, nKeys, nRed int, lab
 			body = append(body, NeqLit(Var(x), Num(rapid.SampledFrom(numDomain).Draw(t, "afc2"))))
 		default:
 			z := g.fresh('n')
-			body = append(body, EqLit(Var(z), Fn("fn:plus", Var(x), Num(1))))
+			if rapid.Bool().Draw(t, "afFlip") {
+				body = append(body, EqLit(Fn("fn:plus", Var(x), Num(1)), Var(z)))
+			} else {
+				body = append(body, EqLit(Var(z), Fn("fn:plus", Var(x), Num(1))))
+			}
 			g.bind('n', z)
+			labels["agg-eq-def"] = true
 		}
 		labels["agg-filter"] = true
 	}
